@@ -85,7 +85,7 @@ prop("C16",
      driver=lambda tier, seed, gen, out: ["rel", "-gen", gen, "-out", out, "-seed", str(seed)] +
      _t(tier, ["-sample", "4000", "-reps", "2"], ["-sample", "150000", "-reps", "4"]),
      trace=("Trace_Rel", "Trace_Rel.cfg"),
-     required=["rel:oneway", "rel:twoway", "rels:nonempty"],
+     required=["rel:oneway", "rel:twoway", "rels:nonempty", "rels:through-edits"],
      level_text="TLC proves the C16 laws for the intended normalisation (order on the pair type name, relationship "
                 "name) over every relationship of a name universe chosen to contain colliding concatenations "
                 "('ab'+'c' vs 'a'+'bc', names with '_'), and that one listing entry per class results; it emits every "
